@@ -116,6 +116,13 @@ CANARIES = [
     ('delete-missing-wrong-error', 'C01', 'src/bucket.rs', '        } else {\n            Err(Error::KeyValueMissing)\n        }', '        } else {\n            Err(Error::IncompatibleValue)\n        }'),
     ('getter-create-over-cached', 'C01', 'src/bucket.rs', '        } else if must_create {\n            return Err(Error::BucketExists);\n        }', '        }'),
     ('getter-wrong-error-kind', 'C01', 'src/bucket.rs', '                        _ => return Err(Error::IncompatibleValue),\n                    },', '                        _ => return Err(Error::BucketMissing),\n                    },'),
+    ('insert-branch-adds-second-entry', 'C05', 'src/node.rs', '                        assert!(original_key.is_some());\n                        branches[i] = branch', '                        assert!(original_key.is_some());\n                        branches.insert(i, branch)'),
+    ('insert-branch-after-its-place', 'C05', 'src/node.rs', '                        assert!(original_key.is_none());\n                        branches.insert(i, branch)', '                        assert!(original_key.is_none());\n                        branches.push(branch)'),
+    ('split-at-drops-one', 'C05', 'src/node.rs', '            NodeData::Leaves(l) => NodeData::Leaves(l.split_off(index)),', '            NodeData::Leaves(l) => { let r = l.split_off(index); l.pop(); NodeData::Leaves(r) }'),
+    ('node-frees-first-page-only', 'C10', 'src/node.rs', '            tx_freelist.free(self.page_id, self.num_pages);', '            tx_freelist.free(self.page_id, 1);'),
+    ('node-keeps-freed-page-id', 'C05', 'src/node.rs', '            tx_freelist.free(self.page_id, self.num_pages);\n            self.page_id = 0;', '            tx_freelist.free(self.page_id, self.num_pages);'),
+    ('node-num-pages-off', 'C05', 'src/node.rs', '        self.num_pages = page.overflow + 1;\n        Ok(page)', '        self.num_pages = page.overflow;\n        Ok(page)'),
+    ('deleted-node-written', 'C05', 'src/node.rs', '        if self.deleted {\n            return Ok(());\n        }\n        self.spilled = true;', '        self.spilled = true;'),
     ('getter-counts-lookups', 'C01', 'src/bucket.rs', '            if !exists {\n                if should_create {\n                    self.meta.next_int += 1;', '            self.meta.next_int += 1;\n            if !exists {\n                if should_create {'),
 ]
 
